@@ -1048,6 +1048,47 @@ void oracle_stability(World& w, const Snapshot& before, bool growth_allowed, con
    }
 }
 
+// Address-free digest of everything the world created: every accessor of every logged entity, with node references
+// rendered as first-visit ordinals.  Two worlds that ran the same script give the same digest whatever their addresses.
+std::uint64_t structural_digest(World& w, std::vector<const void*>* node_addresses)
+{
+   std::unordered_map<const void*, std::size_t> ordinal;
+   auto ord = [&](const void* p, bool is_node) {
+      auto ins = ordinal.emplace(p, ordinal.size());
+      if (ins.second && is_node && node_addresses) node_addresses->push_back(p);
+      return ins.first->second;
+   };
+   std::uint64_t h = 1469598103934665603ull;
+   auto mix = [&](const void* p, std::size_t n) { h = vf::fnv1a(p, n, h); };
+   std::function<void(const Val&)> put = [&](const Val& v) {
+      const std::uint8_t k = v.kind;
+      mix(&k, 1);
+      switch (v.kind) {
+      case Val::Ref: {
+         const std::size_t o = ord(v.ref, v.is_node);
+         mix(&o, sizeof o);
+         break;
+      }
+      case Val::Num: mix(&v.num, sizeof v.num); break;
+      case Val::Text:
+      case Val::Foreign: mix(v.text.data(), v.text.size()); break;
+      case Val::Seq:
+         for (auto& x : v.seq) put(x);
+         break;
+      default: break;
+      }
+   };
+   for (auto& r : w.log) {
+      const std::size_t o = ord(r.ent.ptr, r.ent.aux == Aux::None);
+      mix(&o, sizeof o);
+      for (auto& f : observe(r.ent)) {
+         mix(f.name.data(), f.name.size());
+         put(f.val);
+      }
+   }
+   return h;
+}
+
 void oracle_fresh_nodes(World& w)
 {
    std::unordered_map<const void*, std::string> seen;
